@@ -45,8 +45,10 @@ DEFAULT_FLAGS = dict(
     int_div=True, int_mod=True, int_pow=True, int_intr=True,
     int_dbl_ctx=False,      # ** / abs / min / max / sign allowed inside integer division, mod and subscripts
     int_cast=False,         # int(x)
+    mod_in_product=False,   # integer mod(..) as right operand of *
     real_mod=True, real_pow=True, sign=True,
     default_real_lit=False,  # un-suffixed real literals (default kind)
+    d_exponent_lit=False,   # 1.5d0
     logical_arrays=True,
     nstmts=7, expr_depth=3,
 )
@@ -137,8 +139,13 @@ class TPGen:
     def kbytes(self, kind):
         return self.kindbytes[kind]
 
+    def kname(self, kind):
+        if self.f['kind_decl'] == 'srk_inline' and kind not in ('real32', 'real64'):
+            return 'real64' if self.kbytes(kind) == 8 else 'real32'
+        return kind
+
     def lit_suffix(self, kind):
-        return f'_{kind}'
+        return f'_{self.kname(kind)}'
 
     def rlit(self, kind, positive=False):
         rng = self.rng
@@ -147,11 +154,23 @@ class TPGen:
             self.feat('default_real_literal')
             self.tainted_lit = True
             t = v
+        elif self.f['d_exponent_lit'] and self.kbytes(kind) == 8 and self.chance(0.5):
+            self.feat('d_exponent_literal')
+            t = v + 'd0'
         else:
             t = v + self.lit_suffix(kind)
         if not positive and self.chance(0.25):
             return f'(-{t})', float(v)
         return t, float(v)
+
+    def rfactor(self, t):
+        """text of an integer expression used as right operand of ``*``"""
+        if t.strip().startswith('mod(') and _atomic(t.strip()):
+            if self.f['mod_in_product']:
+                self.feat('int_mod_as_right_factor')
+                return t.strip()
+            return f'(0 + {t.strip()})'
+        return _par(t)
 
     def ilit(self, nonzero=False):
         v = self.rng.choice([1, 2, 3, 4, 5, 7, 11] if nonzero else [0, 1, 2, 3, 4, 5, 7, 11])
@@ -248,7 +267,7 @@ class TPGen:
             if nb >= INT_CAP:
                 return a, ba
             if op == 'mul':
-                return f'{_par(a)}*{_par(b)}', nb
+                return f'{_par(a)}*{self.rfactor(b)}', nb
             return f"{a} {'+' if op == 'add' else '-'} {_par(b)}", nb
         if op == 'neg':
             return f'(-{_par(a)})', ba
@@ -261,7 +280,7 @@ class TPGen:
                 self.feat(f'{op}_by_signed_variable')
             elif self.chance(0.3):
                 b, bb = self.int_expr(depth - 1, True)
-                d, bd = f'(1 + {_par(b)}*{_par(b)})', 1
+                d, bd = f'(1 + {_par(b)}*{self.rfactor(b)})', 1
                 if bb * bb + 1 >= INT_CAP:
                     d = str(self.ilit(True)[1])
             else:
@@ -341,13 +360,13 @@ class TPGen:
                     i, bi = f'mod({i}, 16)', 16
                 else:
                     i, bi = self.ilit()
-            return f'real({i}, kind={kind})', bi
+            return f'real({i}, kind={self.kname(kind)})', bi
         if op == 'imix':
             self.feat('int_real_mixed')
             i, bi = self.int_expr(min(depth - 1, 1))
             if bi * ba > REAL_CAP:
                 return a, ba
-            return f'{_par(a)}*{_par(i)}', ba * bi
+            return f'{_par(a)}*{self.rfactor(i)}', ba * bi
         if op == 'pow':
             self.feat('real_pow')
             r = rng.random()
@@ -746,7 +765,7 @@ class TPGen:
     def decl(self, v):
         t = self.tname(v)
         if v.role == 'param':
-            return f'  {t}, parameter :: {v.name} = {v.value}'
+            return f'  {t}, parameter :: {v.name} = {v.value}'.replace('_' + str(v.kind), self.lit_suffix(v.kind) if v.kind else '')
         if v.intent:
             t += f', intent({v.intent})'
         dims = f"({', '.join(d.decl for d in v.dims)})" if v.rank else ''
@@ -812,7 +831,8 @@ class TPGen:
         # --- kernel text
         kinds = list(f['kinds'])
         envk = sorted({k for k in self.kindbytes if k in ('real32', 'real64')
-                       and (k in kinds or any(v.kind == k for v in self.vars))})
+                       and (k in kinds or any(v.kind == k for v in self.vars))}
+                      | ({self.kname(k) for k in kinds} if f['kind_decl'] == 'srk_inline' else set()))
         spec = []
         if envk:
             spec.append(f"  use iso_fortran_env, only: {', '.join(envk)}")
